@@ -245,4 +245,161 @@ theorem mapDurations_ok (l out : List (CVal × CVal)) (h : mapDurations l = .ok 
 def envWith (fe : String → Bool) (fb : Option CVal) : Env :=
   { tbl := KskmGen.configSchema, algNames := KskmGen.algorithmDNSSEC, fileExists := fe, kskTtlFallback := fb }
 
+theorem fieldValidators_of (tbl : List ObjSchema) (name fname : String) (s : ObjSchema) (f : Field)
+    (hs : findSchema tbl name = some s) (hf : s.field? fname = some f) :
+    schemaFieldValidators tbl name fname = some (f.strToList, f.naiveIsUtc) := by
+  simp [schemaFieldValidators, hs, hf]
+
+/-- Where the value of an option of a loaded key definition comes from, traced back to the configured
+    tree (after `_transform_config`): the key definition of the same name, and for each option either
+    its default (the option is absent) or the validated form of what was configured. -/
+theorem key_option_traced (fe : String → Bool) (c loaded ks kname key : CVal) (keys : List (CVal × CVal))
+    (h : fromDict (realEnv fe) c = .ok loaded)
+    (hg : loaded.get? "ksk_keys" = some ks) (hks : ks = .map keys) (hk : (kname, key) ∈ keys) :
+    ∃ kvs ksIn keyIn, transformConfig (realEnv fe).kskTtlFallback c = .ok kvs ∧
+      CVal.lookupStr kvs "ksk_keys" = some (.map ksIn) ∧ (kname, .map keyIn) ∈ ksIn ∧
+      ∀ fname v, key.get? fname = some v →
+        ∃ s f, findSchema KskmGen.configSchema "KSKKey" = some s ∧ s.field? fname = some f ∧
+          ((CVal.lookupStr keyIn fname = none ∧ f.default = some v) ∨
+           (∃ x y, CVal.lookupStr keyIn fname = some x ∧
+              validate (realEnv fe) 5 s.strict f.ty (applyStrToList f x) = .ok (some y) ∧
+              v = applyNaiveIsUtc f y)) := by
+  obtain ⟨kvs, ht, hv, _⟩ := fromDict_validated _ c loaded h
+  obtain ⟨s, f, kvs0, hs, hf, hkv, hor⟩ :=
+    validate_model_get (realEnv fe) names_nodup 7 false "KSKMConfig" "ksk_keys" (.map kvs) loaded ks hv hg
+  injection hkv with hkv
+  subst hkv
+  obtain ⟨e1, e2⟩ := fieldTy_of _ _ _ _ _ hs hf
+  have e3 := fieldValidators_of _ _ _ _ _ hs hf
+  have hd0 : ((schemaDefault KskmGen.configSchema "KSKMConfig" "ksk_keys").bind CVal.getMap?).map List.isEmpty
+      = some true := by decide
+  have ht0 : schemaFieldTy KskmGen.configSchema "KSKMConfig" "ksk_keys" = some (.mapOf false (.model "KSKKey")) := by decide
+  have hv0 : schemaFieldValidators KskmGen.configSchema "KSKMConfig" "ksk_keys" = some (false, false) := by decide
+  rcases hor with ⟨_, hd⟩ | ⟨x, y, hl, hy, hky⟩
+  · -- the whole `keys` section defaulted: it is empty
+    have : schemaDefault KskmGen.configSchema "KSKMConfig" "ksk_keys" = some ks := e2.trans hd
+    rw [this, hks] at hd0
+    simp only [Option.bind_some, CVal.getMap?, Option.map_some, Option.some.injEq, List.isEmpty_iff] at hd0
+    subst hd0
+    cases hk
+  · have hty : f.ty = .mapOf false (.model "KSKKey") := by
+      have : some f.ty = some (STy.mapOf false (.model "KSKKey")) := by rw [← ht0]; exact e1.symm
+      injection this
+    have hfl : f.strToList = false ∧ f.naiveIsUtc = false := by
+      have : some (f.strToList, f.naiveIsUtc) = some (false, false) := by rw [← hv0]; exact e3.symm
+      injection this with this
+      injection this with h1 h2
+      exact ⟨h1, h2⟩
+    simp only [applyStrToList, applyNaiveIsUtc, hfl.1, hfl.2, Bool.false_eq_true, if_false] at hy hky
+    rw [hty, ← hky, hks] at hy
+    obtain ⟨ksIn, kv, hx, hkv, hkey, hval⟩ := validate_mapOf_mem _ 6 _ _ _ x keys (kname, key) hy hk
+    subst hx
+    have hkn : kname = kv.1 := valKey_str _ _ hkey
+    obtain ⟨keyIn, hin⟩ := validate_model_input _ 5 _ _ _ _ hval
+    refine ⟨kvs, ksIn, keyIn, ht, hl, ?_, ?_⟩
+    · rw [hkn, ← hin]; exact hkv
+    · intro fname v hgv
+      obtain ⟨s2, f2, kvs2, hs2, hf2, hkv2, hor2⟩ :=
+        validate_model_get (realEnv fe) names_nodup 5 s.strict "KSKKey" fname kv.2 key v hval hgv
+      rw [hin] at hkv2
+      injection hkv2 with hkv2
+      subst hkv2
+      exact ⟨s2, f2, hs2, hf2, hor2⟩
+
+/-! ### KSK validity: a timestamp without time zone is UTC -/
+
+/-- The documented reading of a configured validity ("ISO8601 timestamp"; a timestamp without a zone
+    designator is UTC, as for KSR / SKR timestamps), written from the property text.  `x` is what the
+    file holds (YAML gives a timestamp, a bare date, or — quoted — a string), `v` what is loaded:
+    * a timestamp WITH a zone designator (`Z`, `+00:00`, `+02:00` …): that instant, zone kept — unchanged;
+    * a timestamp WITHOUT one: the same wall-clock time in UTC (`us` reads a naive value as UTC);
+    * a bare date: midnight UTC of that day;
+    * an ISO 8601 text (as far as the model parses it): the same, with or without designator;
+    * an empty `valid_until`: stays empty.
+    Other spellings (numbers = Unix time, …) are not spoken about here. -/
+def LoadedAs (x v : CVal) : Prop :=
+  match x with
+  | .ts us (some off) => v = .ts us (some off)
+  | .ts us none => v = .ts us (some 0)
+  | .date d => v = .ts (d * usPerDay) (some 0)
+  | .str s => ∀ us off, parseCleanInt s.toList = none → pydDatetime s = .ok (some (us, off)) →
+      v = .ts us (some (off.getD 0))
+  | .null => v = .null
+  | _ => True
+
+/-- one validity option, traced: shared by the two halves of `validity_loaded_aware` -/
+theorem validity_option (fe : String → Bool) (s : ObjSchema) (f : Field) (fname : String) (alts : List Scalar)
+    (x y v : CVal)
+    (hs : findSchema KskmGen.configSchema "KSKKey" = some s) (hf : s.field? fname = some f)
+    (hty : schemaFieldTy KskmGen.configSchema "KSKKey" fname = some (.scalar (.datetime :: alts)))
+    (halts : alts = [] ∨ alts = [.null])
+    (hvl : schemaFieldValidators KskmGen.configSchema "KSKKey" fname = some (false, true))
+    (hy : validate (realEnv fe) 5 s.strict f.ty (applyStrToList f x) = .ok (some y))
+    (hv : v = applyNaiveIsUtc f y) :
+    (v = .null ∨ ∃ us off, v = .ts us (some off)) ∧ LoadedAs x v := by
+  obtain ⟨e1, _⟩ := fieldTy_of _ _ _ _ _ hs hf
+  have e3 := fieldValidators_of _ _ _ _ _ hs hf
+  have hstrict : s.strict = false := by
+    have h0 : (findSchema KskmGen.configSchema "KSKKey").map (·.strict) = some false := by decide
+    rw [hs] at h0
+    simpa using h0
+  have hfty : f.ty = .scalar (.datetime :: alts) := by
+    have : some f.ty = some (STy.scalar (.datetime :: alts)) := by rw [← hty]; exact e1.symm
+    injection this
+  have hfl : f.strToList = false ∧ f.naiveIsUtc = true := by
+    have : some (f.strToList, f.naiveIsUtc) = some (false, true) := by rw [← hvl]; exact e3.symm
+    injection this with this
+    injection this with h1 h2
+    exact ⟨h1, h2⟩
+  simp only [applyStrToList, hfl.1, Bool.false_eq_true, if_false, hfty, hstrict] at hy
+  simp only [applyNaiveIsUtc, hfl.2, if_true] at hv
+  constructor
+  · -- never naive: the validated value is of the field's type, and the validator made it aware
+    have hc := validate_sound _ _ _ _ _ _ hy
+    obtain ⟨a, ha, hok⟩ := conforms_scalar _ 4 _ y hc
+    have hcase : (∃ u o, y = .ts u o) ∨ y = .null := by
+      rcases List.mem_cons.mp ha with rfl | ha
+      · exact Or.inl hok
+      · rcases halts with rfl | rfl
+        · cases ha
+        · simp only [List.mem_cons, List.not_mem_nil, or_false] at ha
+          subst ha
+          exact Or.inr hok
+    rcases hcase with ⟨u, o, rfl⟩ | rfl
+    · right
+      cases o with
+      | none => exact ⟨u, 0, hv⟩
+      | some o => exact ⟨u, o, hv⟩
+    · left; exact hv
+  · -- and it is the configured one
+    cases x with
+    | ts us off =>
+      rw [validate_datetime_ts] at hy
+      injection hy with hy; injection hy with hy; subst hy
+      cases off <;> exact hv
+    | date d =>
+      have hd := validate_datetime_date (realEnv fe) 4 d
+      rcases halts with rfl | rfl
+      · rw [hd.1] at hy
+        injection hy with hy; injection hy with hy; subst hy
+        exact hv
+      · rw [hd.2] at hy
+        injection hy with hy; injection hy with hy; subst hy
+        exact hv
+    | null =>
+      rcases halts with rfl | rfl
+      · simp [validate, valUnion, firstSome, valScalar, pure, Except.pure, bind, Except.bind] at hy
+      · rw [validate_datetime_null] at hy
+        injection hy with hy; injection hy with hy; subst hy
+        exact hv
+    | str t =>
+      intro us off hci hpd
+      have hyv : y = .ts us off := by
+        rcases halts with rfl | rfl <;>
+          simp [validate, valUnion, firstSome, valScalar, pure, Except.pure, bind, Except.bind, hci, hpd] at hy <;>
+          exact hy.symm
+      subst hyv
+      cases off <;> exact hv
+    | _ => trivial
+
 end Kskm.C16
